@@ -326,6 +326,9 @@ pub fn run_check(spec: &PropSpec, tier: &str, verif_seed: u64, verif_dir: &str) 
                         eprintln!("WORLD i={} family={} seed={}", i, spec.families[fi].name, seed);
                     }
                     let o = run_family(spec.families[fi].f, Chooser::generate(seed), &ctx);
+                    if trace_worlds {
+                        eprintln!("WORLD-DONE i={}", i);
+                    }
                     local.absorb(&o, fi);
                     if let Some((kind, detail)) = first_kind(&o, spec) {
                         if is_known(&kind, &detail) {
